@@ -36,10 +36,11 @@ def run(ctx):
     for s in corpus.specs(names=['eof1', 'lit1'] if quick else ['eof1', 'eof2', 'lit1', 'sc1', 'bol1']):
         for c in ([C('Cem')] if quick else [C('Cem'), C('r', api='r'), C('B', ['-B'])]):
             js, g = E.wrap_jobs(ctx, s, c, ([0, 1, 2] if s.name == 'lit1' else [0]) if quick else [0, 1, 2, 3], witness_len=(2 if s.name == 'lit1' else None),
-                                timeout=(200 if quick else 900))
+                                timeout=(200 if quick else 1500), mores=((0,) if (quick and s.name != 'lit1') else (0, 1, 2)))
             if common.gen_ok(ctx, g, s, c, 'wrap'):
                 jobs += js
     jobs.sort(key=common._cost)
     ctx.run_cbmc(jobs)
     common.std_assumptions(ctx)
+    ctx.assume('yywrap() behaviour is fixed per query: reports no further input / supplies a second source / pops back to the buffer pushed before (the include-file idiom)')
     ctx.out_of_bound.append('chains of more than one further source; yyrestart()/new yyin after termination (FILE based; the refill harness covers yyrestart inside yy_get_next_buffer)')
